@@ -48,6 +48,8 @@ func genNetConfig(ch *Chooser, prop, tier string, disabled map[string]bool) *Run
 		cfg.TimerEarlyPm = []int{0, 0, 10, 40, 150}[ch.Pick("r-timer", 5)]
 		cfg.ValidateFailPm = drawRate(ch, "r-vfail") / 2
 		cfg.CommitFailPm = drawRate(ch, "r-cfail") / 2
+		cfg.CommitteeFailPm = drawRate(ch, "r-cmfail") / 3
+		cfg.SendErrPermille = drawRate(ch, "r-senderr") / 4
 		if len(cfg.Byz) > 0 {
 			cfg.ByzPm = []int{20, 60, 150, 300}[ch.Pick("r-byz", 4)]
 			cfg.Strategies = drawStrategies(ch, disabled)
@@ -171,6 +173,7 @@ func (w *World) action(name string) {
 func RunNet(w *World) {
 	w.setup()
 	for _, n := range w.honest() {
+		n.gatePolicy = w.failOnlyGatePolicy(n)
 		w.startNode(n)
 	}
 	w.quiesce()
@@ -886,5 +889,29 @@ func (w *World) twoLocksStep() {
 				return
 			}
 		}
+	}
+}
+
+// failOnlyGatePolicy: consumer-side failures without blocking (so that no worker-select control is needed): the
+// consumer rejects a proposal, fails to persist a committed block, or the committee lookup fails.
+func (w *World) failOnlyGatePolicy(n *Node) func(kind string, h uint64) GateVerdict {
+	return func(kind string, h uint64) GateVerdict {
+		if w.stabilised || w.recovering {
+			return GatePass
+		}
+		pm := 0
+		switch kind {
+		case "validate":
+			pm = w.cfg.ValidateFailPm
+		case "commit":
+			pm = w.cfg.CommitFailPm
+		case "committee":
+			pm = w.cfg.CommitteeFailPm
+		}
+		if pm > 0 && w.ch.Chance("spi-fail:"+kind, pm) {
+			w.stats.Fault("spi-error-" + kind)
+			return GateFail
+		}
+		return GatePass
 	}
 }
